@@ -450,6 +450,24 @@ func (m *Machine) prepareCall(fr *frame, c *ssa.CallCommon) (Value, []Value) {
 	} else {
 		recv, ok := v.(Iface)
 		if !ok || recv.T == nil {
+			if m.X.inInit > 0 {
+				// Inside a package initialiser a nil interface usually is the zero result of a call
+				// into the runtime/reflect layer (see runBody): keep yielding zero values.
+				res := c.Signature().Results()
+				return &Native{Kind: "zero-results", Obj: func(m *Machine, caller *frame, args []Value) Value {
+					switch res.Len() {
+					case 0:
+						return nil
+					case 1:
+						return m.zero(res.At(0).Type())
+					}
+					t := make(Tuple, res.Len())
+					for i := range t {
+						t[i] = m.zero(res.At(i).Type())
+					}
+					return t
+				}}, nil
+			}
 			m.throw("invalid memory address or nil pointer dereference (method call on nil interface)")
 		}
 		if nat, ok := recv.V.(*Native); ok {
